@@ -369,7 +369,7 @@ package reflect
 //@   ensures c11_noholder: err == nil && (!sd.hasUnknownFields || $skn == 0) ==> $cptr == 0
 //@   loop 0 invariant c09_cleared: forall k int :: {sd.requiredFieldIDs[k]} 0 <= k && k <= rangeindex ==> !bit(bs, sd.requiredFieldIDs[k])
 //@   loop 1 invariant 0 <= i && i <= len(b) && spanInv(&d.s) && old($brk) <= $brk
-//@   loop 1 invariant ufs != nil ==> ufsOK(ufs, i) && old($brk) <= ufs && (cap(ufs.offs) == 0 || old($brk) <= ufs.offs.ptr)
+//@   loop 1 invariant ufsinv: ufs != nil ==> ufsOK(ufs, i) && old($brk) <= ufs && (cap(ufs.offs) == 0 || old($brk) <= ufs.offs.ptr)
 //@   loop 1 invariant c09_bits: bs != nil ==> old($brk) <= bs && (forall k int :: {sd.requiredFieldIDs[k]} 0 <= k && k < len(sd.requiredFieldIDs) ==> (bit(bs, sd.requiredFieldIDs[k]) <==> $seen[sd.requiredFieldIDs[k]]))
 //@   loop 1 invariant c09_nobs: bs == nil ==> len(sd.requiredFieldIDs) == 0
 //@   loop 1 invariant c11_index: 0 <= $skn && (ufs != nil ==> ufsIs(ufs, $skn, $skoff, $sksz))
@@ -439,7 +439,7 @@ package reflect
 //@   loop 1 invariant c06_ptrs: et.IsPointer ==> destOK(d, $e0, l * et.V.Size) && (j == 0 ==> sliceData == $e0) && (j > 0 ==> sliceData == $e0 + (j - 1) * et.V.Size)
 //@   loop 1 invariant 0 <= j && j <= l && 5 <= i && i <= len(b) && spanInv(&d.s) && old($brk) <= $brk
 //@   loop 1 invariant p != nil && (et.IsPointer ==> sliceData != nil)
-//@   loop 1 invariant et.FixedSize > 0 ==> i + (l - j) * et.FixedSize <= len(b)
+//@   loop 1 invariant remaining: et.FixedSize > 0 ==> i + (l - j) * et.FixedSize <= len(b)
 //@   loop 1 decreases l - j
 
 // ---------------------------------------------------------------------------
